@@ -7,7 +7,7 @@ TARGET = dict(
           "cases thread B is a REAL thread created by upipe_pthread_xfer_mgr_alloc and both threads are served by the real uprobe_pthread_upump_mgr, run in strict "
           "alternation under the harness' control) -- with queue lengths 1-4 (biased), 5-255, 300; the two logical threads are two "
           "harness-owned event loops in one OS thread, and the history interleaves application calls (input directly or from a source pump, set_flow_def, flush, "
-          "set_output(pseudo)/NULL, attach_upump_mgr, set_max_length, forwarded control under freeze, release of any handle) with SINGLE pump callbacks of either "
+          "set_output(pseudo)/NULL, attach_upump_mgr (also answered with ANOTHER event loop: queue source moved for good, queue sink moved and moved back -- no watcher of the pipe may stay in the loop it left), set_max_length, forwarded control under freeze, release of any handle) with SINGLE pump callbacks of either "
           "loop; in addition an operation can be preempted at its n-th shared-memory access (UPIPE_VERIF hook: atomics, ring elements, event descriptors) by whole "
           "callbacks of the other loop; the tail releases everything and runs both loops dry. "
           "non-trivial = more buffers in flight than the queue holds AND one of: flush during a stall, flow definition change in mid-stream, release with undelivered "
